@@ -51,7 +51,7 @@ INV = 'ReadsEqualSource FailedSourceNeverWrongBytes NeverBeyondSize MediaOnlyCor
 # (cfg, expected violated invariant or None)
 MC_Q = [('MC_Cache_quick.cfg', None), ('MC_Cache_quick_async.cfg', None), ('MC_Cache_w_nomrl.cfg', 'ReadsEqualSource')]
 MC_T = [('MC_Cache_quick.cfg', None), ('MC_Cache_quick_async.cfg', None),
-        ('MC_Cache_t_fiemap.cfg', None), ('MC_Cache_t_map.cfg', None), ('MC_Cache_t_capfull.cfg', None),
+        ('MC_Cache_t_fiemap.cfg', None), ('MC_Cache_t_fiemap_ru2.cfg', None), ('MC_Cache_t_map.cfg', None), ('MC_Cache_t_capfull.cfg', None),
         ('MC_Cache_t_2files.cfg', None), ('MC_Cache_t_reopen.cfg', None),
         ('MC_Cache_w_nomrl.cfg', 'ReadsEqualSource'), ('MC_Cache_w_nowlock.cfg', 'ReadsEqualSource'),
         ('MC_Cache_w_noclamp.cfg', 'NeverBeyondSize'), ('MC_Cache_w_shortok.cfg', 'ReadsEqualSource'),
